@@ -19,6 +19,20 @@ let rec int_of_pos = function
   | Coq_xI p -> 2 * int_of_pos p + 1
 let int_of_n = function N0 -> 0 | Npos p -> int_of_pos p
 let int_of_z = function Z0 -> 0 | Zpos p -> int_of_pos p | Zneg p -> - (int_of_pos p)
+(* decimal rendering of a positive of any size (message IDs are not bounded by the OCaml int): Horner over the bits,
+   most significant first, on a little-endian list of decimal digits *)
+let dec_of_pos (p : positive) : string =
+  let rec bits acc = function
+    | Coq_xH -> 1 :: acc
+    | Coq_xO q -> bits (0 :: acc) q
+    | Coq_xI q -> bits (1 :: acc) q in
+  let rec dbl carry = function
+    | [] -> if carry = 0 then [] else [carry]
+    | d :: r -> let v = 2 * d + carry in (v mod 10) :: dbl (v / 10) r in
+  let digits = L.fold_left (fun ds b -> dbl b ds) [] (bits [] p) in
+  S.concat "" (L.rev_map string_of_int digits)
+let dec_of_n = function N0 -> "0" | Npos p -> dec_of_pos p
+let dec_of_z = function Z0 -> "0" | Zpos p -> dec_of_pos p | Zneg p -> "-" ^ dec_of_pos p
 let rec nat_of_int n = if n <= 0 then O else S (nat_of_int (n - 1))
 let rec int_of_nat = function O -> 0 | S n -> 1 + int_of_nat n
 
@@ -199,8 +213,8 @@ let run_case (line : string) =
         (match Collection.validate (Collection.sort_readers rs) inc with
          | Coq_inl e -> out "err "; out (exn_name e)
          | Coq_inr (rc, others) ->
-           out "ok "; out (string_of_int (int_of_n rc.Collection.rd_mid));
-           L.iter (fun rd -> outc (); out (string_of_int (int_of_n rd.Collection.rd_mid));
+           out "ok "; out (dec_of_n rc.Collection.rd_mid);
+           L.iter (fun rd -> outc (); out (dec_of_n rd.Collection.rd_mid);
                     out ":"; out (class_name rd.Collection.rd_class)) others))
    | "access" ->
      (* access <oracles> <msg> : what the message object exposes and what inspect() prints *)
@@ -236,9 +250,9 @@ let run_case (line : string) =
      let ro = rd_xml r in
      let pr_accz = function
        | Elements.ANone -> out "N"
-       | Elements.AVal z -> out "V"; out (string_of_int (int_of_z z))
+       | Elements.AVal z -> out "V"; out (dec_of_z z)
        | Elements.AErr e -> out "E"; out (exn_name e) in
-     let pr_oz = function None -> out "N" | Some z -> out "V"; out (string_of_int (int_of_z z)) in
+     let pr_oz = function None -> out "N" | Some z -> out "V"; out (dec_of_z z) in
      let pr_strs l = out (string_of_int (L.length l)); L.iter (fun x -> outc (); pr_str x) l in
      let pr_body l = out (string_of_int (L.length l));
        L.iter (fun x -> outc (); match x with
